@@ -34,7 +34,11 @@ pub fn run_knn(out: &mut Out, rng: &mut Rng, thorough: bool) {
         let n = 2 + rng.below(if rep % 13 == 0 || bname == "anisocell" { 60 } else { 14 }) as usize;
         // grid cell size: from "one cell" to "many empty cells"
         // `anisocell`: cells of 0.5 x 1.5 x 0.5 (the ring bound must use the smallest width)
-        let mcw = if bname == "trapbox" { width.min_element() / 4. } else if bname == "anisocell" { 1.5 } else { width.max_element() * [1.5, 0.7, 0.4, 0.25, 0.13][rng.below(5) as usize] };
+        // every eighth record: a grid much finer than the particle spacing (rings of empty cells between a particle and its
+        // neighbours: "nothing found in this ring" is no reason to stop)
+        let fine = rep % 8 == 6;
+        let mcw = if bname == "trapbox" { width.min_element() / 4. } else if bname == "anisocell" { 1.5 } else if fine { width.max_element() * [0.05, 0.03, 0.02][rng.below(3) as usize] } else { width.max_element() * [1.5, 0.7, 0.4, 0.25, 0.13][rng.below(5) as usize] };
+        let n = if fine && bname != "trapbox" && bname != "anisocell" { 2 + rng.below(5) as usize } else { n };
         let fam_pts = ["uniform", "cluster", "lattice", "line"][rng.below(4) as usize];
         let mut pts = vec![];
         for i in 0..n {
@@ -114,6 +118,43 @@ pub fn run_knn(out: &mut Out, rng: &mut Rng, thorough: bool) {
             for l in nn {
                 for i in l {
                     s.push_str(&format!(" {}", i));
+                }
+            }
+            // the grid itself (the objects the theorems GridWF / RingWF / KnnFull speak about): dimensions, every cell's box, the cell
+            // of every particle, and get_r_ring around the cells of two particles for r = 0 … max dimension + 1
+            let (cdim, cells, cids, _) = vh::space_grid(anchor, width, mcw, &p2, &[]);
+            // all rings of small grids; of large ones the first ten and the last two (the ring that still holds cells, the empty one after)
+            let rmax = *cdim.iter().max().unwrap() as i32 + 1;
+            let radii: Vec<i32> = if rmax <= 12 { (0..=rmax).collect() } else { (0..10).chain([rmax - 2, rmax - 1, rmax]).collect() };
+            let mut req = vec![];
+            for &c in [cids[0], cids[cids.len() / 2]].iter() {
+                for &r in &radii {
+                    req.push((c, r));
+                }
+            }
+            let (_, _, _, rings) = vh::space_grid(anchor, width, mcw, &p2, &req);
+            // boxes: of every cell for grids of at most 512 cells, otherwise of the cells that hold a particle
+            let listed: Vec<usize> = if cells.len() <= 512 {
+                (0..cells.len()).collect()
+            } else {
+                let mut v = cids.clone();
+                v.sort();
+                v.dedup();
+                v
+            };
+            s.push_str(&format!(" GRID {} {} {} CELLS {}", cdim[0], cdim[1], cdim[2], listed.len()));
+            for &c in &listed {
+                s.push_str(&format!(" {} {} {}", c, v3(cells[c].0), v3(cells[c].1)));
+            }
+            s.push_str(&format!(" CIDS {}", cids.len()));
+            for c in &cids {
+                s.push_str(&format!(" {}", c));
+            }
+            s.push_str(&format!(" RINGS {}", req.len()));
+            for ((c, r), ring) in req.iter().zip(rings.iter()) {
+                s.push_str(&format!(" {} {} {}", c, r, ring.len()));
+                for x in ring {
+                    s.push_str(&format!(" {}", x));
                 }
             }
             s
